@@ -382,7 +382,7 @@ static void Table_Set_Move(var self, var key, var val, bool move) {
     }
     
     uint64_t p = Table_Probe(t, i, h);
-    if (j >= p) {
+    if (j > p) {
       memcpy((char*)t->sspace1, (char*)t->data + i * Table_Step(t), Table_Step(t));
       memcpy((char*)t->data + i * Table_Step(t), (char*)t->sspace0, Table_Step(t));
       memcpy((char*)t->sspace0, (char*)t->sspace1, Table_Step(t));
